@@ -45,6 +45,11 @@ static sqfs_object_t *xattr_reader_copy(const sqfs_object_t *obj)
 
 	memcpy(copy, xr, sizeof(*xr));
 
+	/* the copy must not release what still belongs to the original */
+	copy->kvrd = NULL;
+	copy->idrd = NULL;
+	copy->id_block_starts = NULL;
+
 	if (xr->kvrd != NULL) {
 		copy->kvrd = sqfs_copy(xr->kvrd);
 		if (copy->kvrd == NULL)
